@@ -1173,10 +1173,17 @@ def _could_be_the_code(ast_source: Callable, lda: ast.Lambda, source_lines: List
         return False
 
     # Default values are no part of the code: two lambdas can differ in nothing else.
+    def same_default(w: ast.expr, k: Any) -> bool:
+        try:
+            # `-1`, `(1, 2)` are no ast.Constant, but literals all the same
+            v = ast.literal_eval(w)
+        except Exception:
+            return True  # a name, a call: can't tell (see `_defaults_are_literals`)
+        return type(v) is type(k) and v == k and repr(v) == repr(k)
+
     def same_defaults(written: List[Any], kept: List[Any]) -> bool:
         return len(written) == len(kept) and all(
-            not isinstance(w, ast.Constant) or (type(w.value) is type(k) and w.value == k)
-            for w, k in zip(written, kept)
+            same_default(w, k) for w, k in zip(written, kept)
         )
 
     kw_kept = getattr(ast_source, "__kwdefaults__", None) or {}
@@ -1189,6 +1196,17 @@ def _could_be_the_code(ast_source: Callable, lda: ast.Lambda, source_lines: List
         kw_written.keys() == kw_kept.keys()
         and same_defaults(list(kw_written.values()), [kw_kept[k] for k in kw_written])
     )
+
+
+def _defaults_are_literals(lda: ast.Lambda) -> bool:
+    """Can every default value of `lda` be read off its text? If not (`k=cut`), a lambda on the
+    line with the same code cannot be told from it by `_could_be_the_code`."""
+    for d in list(lda.args.defaults) + [d for d in lda.args.kw_defaults if d is not None]:
+        try:
+            ast.literal_eval(d)
+        except Exception:
+            return False
+    return True
 
 
 def _lambda_at_code_position(
@@ -1396,8 +1414,12 @@ def _parse_source_for_lambda(
             # matter only if every one of these lambdas is the first argument of a call (of
             # another name): `ds.Select(lambda e: 1).Where(lambda e: True)`, but not
             # `then(ds.Select(lambda e: e.a), lambda e: 8)` or `.Where(filter=lambda e: False)`.
-            not_settled_by_name = len(follow_keyword) > 0 or any(
-                id(lda) not in first_argument_of_its_call for lda in all_matching
+            not_settled_by_name = (
+                len(follow_keyword) > 0
+                or any(id(lda) not in first_argument_of_its_call for lda in all_matching)
+                # ... nor if they might differ in a default value only (a helper that was
+                # handed one of them can call the operator of the same name itself)
+                or any(not _defaults_are_literals(lda) for lda in all_matching)
             )
             if by_position is not None:
                 good_lambdas = [by_position]
